@@ -5,6 +5,7 @@
    is C12's property); numbers are NaN or an order-preserving image of a double.  No axioms. *)
 From Coq Require Import List NArith ZArith Bool Arith Lia.
 Require Import XV.GenXpx XV.XpxDefs XV.XpxModel XV.XpxDistinct XV.XpxMath XV.XpxStr XV.XpxTok.
+Require Import XV.XpCpDefs XV.XpxCpDefs XV.XpxCpModel.
 Import ListNotations.
 
 (* ---- set:difference / xalan:difference, set:intersection / xalan:intersection ---------------------------- *)
@@ -265,6 +266,89 @@ Example align_example :
   align [97; 98]%N [49; 50; 51; 52; 53; 54; 55]%N ACenter = [49; 50; 97; 98; 53; 54; 55]%N
   /\ align_guard gen_align_right = true /\ align_guard [108; 101; 102; 116]%N = true /\ align_mode_of [] = ALeft.
 Proof. vm_compute. repeat split; reflexivity. Qed.
+
+(* ---- str:padding / str:align on characters (K6x and its repair) --------------------------------------------------------
+
+   The theorems above measure in list elements: they are about code units for the functions as found
+   (XpxDefs.padding / align) and say nothing true about characters once a surrogate pair is present.  XpxCpDefs.padding_cp /
+   align_cp are the repaired functions (lengths = length() - countPairs(), cuts = unitsOf()); `chars s` is the list of the
+   characters of s, each with its one or two code units; `well_formed s`: every surrogate is half of a pair (all an XML
+   parser delivers).  GenXpx.gen_exslt_padding_align_count_characters says which form THIS tree has. *)
+
+Theorem padding_has_n_characters : forall n pad, pad <> [] -> well_formed pad = true ->
+  cp_length (padding_cp n pad) = n
+  /\ (forall i d, i < n -> nth i (chars (padding_cp n pad)) d = nth (i mod cp_length pad) (chars pad) d)
+  /\ well_formed (padding_cp n pad) = true.
+Proof. exact padding_cp_spec. Qed.
+Print Assumptions padding_has_n_characters.
+
+(* the form of the result: whole copies of the padding string, the last one cut after r whole characters *)
+Theorem padding_is_a_prefix_of_the_repeated_string : forall n pad, pad <> [] -> 0 < n ->
+  exists q r, padding_cp n pad = concat (repeat pad q) ++ concat (firstn r (chars pad))
+              /\ q * cp_length pad + r = n /\ r <= cp_length pad.
+Proof. exact padding_cp_shape. Qed.
+Print Assumptions padding_is_a_prefix_of_the_repeated_string.
+
+Theorem padding_of_empty_string_is_empty_characters : forall n, padding_cp n [] = [].
+Proof. exact padding_cp_empty_pad. Qed.
+Print Assumptions padding_of_empty_string_is_empty_characters.
+
+(* the hypothesis is needed (a lone low surrogate first, a lone high one last), and satisfiable *)
+Theorem padding_needs_well_formed_refuted : exists pad, pad <> [] /\ cp_length (padding_cp 4 pad) <> 4.
+Proof. exact padding_cp_needs_well_formed. Qed.
+Print Assumptions padding_needs_well_formed_refuted.
+
+Theorem align_keeps_length_of_template : forall t p m, well_formed t = true -> well_formed p = true ->
+  cp_length (align_cp t p m) = cp_length p /\ well_formed (align_cp t p m) = true.
+Proof. exact align_cp_length. Qed.
+Print Assumptions align_keeps_length_of_template.
+
+(* left / right / center placement, by characters (align_start and its balance: align_center_is_balanced above) *)
+Theorem align_places_the_target_by_characters : forall t p m,
+  well_formed t = true -> well_formed p = true -> cp_length t <= cp_length p ->
+  chars (align_cp t p m) = firstn (align_start (cp_length t) (cp_length p) m) (chars p) ++ chars t
+                           ++ skipn (align_start (cp_length t) (cp_length p) m + cp_length t) (chars p).
+Proof. exact align_cp_replaces. Qed.
+Print Assumptions align_places_the_target_by_characters.
+
+Theorem align_truncates_a_long_target_by_characters : forall t p m, cp_length p < cp_length t ->
+  chars (align_cp t p m) = firstn (cp_length p) (chars t).
+Proof. exact align_cp_truncates. Qed.
+Print Assumptions align_truncates_a_long_target_by_characters.
+
+(* strings without a surrogate pair: the repaired functions are the functions as found, unit for unit *)
+Theorem padding_no_pairs_same_as_before : forall n pad, count_pairs pad = 0 -> padding_cp n pad = padding n pad.
+Proof. exact padding_cp_no_pairs. Qed.
+Print Assumptions padding_no_pairs_same_as_before.
+
+Theorem align_no_pairs_same_as_before : forall t p m, count_pairs t = 0 -> count_pairs p = 0 -> align_cp t p m = align t p m.
+Proof. exact align_cp_no_pairs. Qed.
+Print Assumptions align_no_pairs_same_as_before.
+
+(* K6x: the functions as found on 'a' + U+1D4B3 and on U+1D4B3 / 'abc' *)
+Theorem padding_before_fix_witness :
+  well_formed k6x_pad = true /\ well_formed (padding_gen false 2 k6x_pad) = false /\ cp_length (padding_gen false 3 k6x_pad) <> 3.
+Proof. exact padding_units_witness. Qed.
+Print Assumptions padding_before_fix_witness.
+
+Theorem align_before_fix_witness :
+  well_formed k6x_target = true /\ well_formed k6x_template = true
+  /\ cp_length (align_gen false k6x_target k6x_template ALeft) <> cp_length k6x_template.
+Proof. exact align_units_witness. Qed.
+Print Assumptions align_before_fix_witness.
+
+Theorem padding_align_this_tree :
+  (gen_exslt_padding_align_count_characters = true /\ padding_ok padding_tree /\ align_ok align_tree)
+  \/ (gen_exslt_padding_align_count_characters = false /\ ~ padding_ok padding_tree /\ ~ align_ok align_tree).
+Proof. exact padding_align_tree. Qed.
+Print Assumptions padding_align_this_tree.
+
+Example padding_align_characters_example :
+  padding_cp 3 k6x_pad = k6x_pad ++ [97]%N /\ well_formed k6x_pad = true /\ k6x_pad <> []
+  /\ align_cp k6x_target k6x_template ARight = [97; 98]%N ++ k6x_target
+  /\ align_cp k6x_target k6x_template ACenter = [97]%N ++ k6x_target ++ [99]%N
+  /\ count_pairs k6x_template = 0 /\ padding_cp 5 k6x_target = k6x_target ++ k6x_target ++ k6x_target ++ k6x_target ++ k6x_target.
+Proof. vm_compute. repeat split; try reflexivity. discriminate. Qed.
 
 (* ---- id(): the tokenizer ---------------------------------------------------------------------------------------------- *)
 
